@@ -575,7 +575,9 @@ impl RoomAuthorisations {
             }
             _ => {
                 if to_insert.node.is_none() {
-                    //this is a reference, not mutation occurs
+                    //this is a reference, no mutation occurs on this node
+                    //but its sub nodes can be mutated and must be validated
+                    self.validate_sub_nodes(entity_to_mutate, verifying_key, &mut rooms)?;
                     return Ok(rooms);
                 } else {
                     let node = to_insert.node.as_ref().unwrap();
@@ -685,16 +687,25 @@ impl RoomAuthorisations {
                     }
                 }
 
-                for entry in &mut entity_to_mutate.sub_nodes {
-                    for insert_entity in entry.1 {
-                        let mut room_ent =
-                            self.validate_entity_mutation(insert_entity, verifying_key)?;
-                        rooms.append(&mut room_ent);
-                    }
-                }
+                self.validate_sub_nodes(entity_to_mutate, verifying_key, &mut rooms)?;
             }
         }
         Ok(rooms)
+    }
+
+    fn validate_sub_nodes(
+        &self,
+        entity_to_mutate: &mut InsertEntity,
+        verifying_key: &Vec<u8>,
+        rooms: &mut Vec<Room>,
+    ) -> Result<()> {
+        for entry in &mut entity_to_mutate.sub_nodes {
+            for insert_entity in entry.1 {
+                let mut room_ent = self.validate_entity_mutation(insert_entity, verifying_key)?;
+                rooms.append(&mut room_ent);
+            }
+        }
+        Ok(())
     }
 
     // create the system room associated the user
